@@ -8,7 +8,7 @@ import (
 func evalJumpIfStmt(node *ast.JumpIfStmt, env *object.Env) object.PanObject {
 	cond := Eval(node.Cond, env)
 	if err, ok := cond.(*object.PanErr); ok {
-		appendStackTrace(err, node.Source())
+		err = appendStackTrace(err, node.Source())
 		return err
 	}
 
